@@ -142,6 +142,15 @@ let time_case id f =
   Printf.printf "%s evalt %s\n" id
     (if time_is_removal (unhex f.(1)) (now_of f.(2)) el then "1" else "0")
 
+let int_of_z = function Z0 -> 0 | Zpos p -> int_of_pos p | Zneg p -> - (int_of_pos p)
+
+(* R <id> <hex text>: the text of --time-limited-current *)
+let current_case id f =
+  Printf.printf "%s cur %s\n" id
+    (match parse_current (unhex f.(0)) with
+     | Some (t, leap) -> Printf.sprintf "%d:%d" (int_of_z t) (if leap then 1 else 0)
+     | None -> "none")
+
 let marker_case id f =
   let el = { el_name = s_of_string "m"; el_attrs = attr_field (s_of_string "name") f.(0) } in
   Printf.printf "%s evalm %s\n" id (if marker_is_removal (split_targets f.(1)) el then "1" else "0")
@@ -149,6 +158,13 @@ let marker_case id f =
 let opt_hex d f = if f = "~" then d else unhex f
 
 let cli_case id f =
+  (* the current instant: the text of --time-limited-current read by the model of the relaxed RFC 3339 parse
+     (older replay files have no such field: the instant itself) *)
+  let text = if Array.length f > 14 then Some (unhex f.(14)) else None in
+  (match text with
+   | Some t when parse_current t = None ->
+     failwith "the text of --time-limited-current does not parse in the model: the wall clock is not modelled"
+   | _ -> ());
   let now = z_of_int (int_of_string f.(9)) in
   let d = default_args now in
   let src = unhex f.(13) in
@@ -171,7 +187,8 @@ let cli_case id f =
     else if name = s_cfg && f.(12) <> "~" then Some (unhex f.(12))
     else None in
   let stdin = if f.(2) = "S" then Some src else None in
-  match run a stdin fs with
+  (* with a text: main.rs's own expression over the parse (the wall clock is never reached: the text parses) *)
+  match (match text with Some t -> run_text a t Z0 stdin fs | None -> run a stdin fs) with
   | Crash -> Printf.printf "%s cli CRASH\n" id
   | Exit (code, out, written) ->
     Printf.printf "%s cli exit=%d stdout=%s file=%s\n" id (int_of_nat code) (hex out)
@@ -192,6 +209,7 @@ let () =
          | "F" -> formatter_case f.(1) rest
          | "T" -> time_case f.(1) rest
          | "M" -> marker_case f.(1) rest
+         | "R" -> current_case f.(1) rest
          | "K" -> cli_case f.(1) rest
          | _ -> ()
        end
